@@ -5,8 +5,10 @@ TIER="$1"; shift
 cd "$(dirname "$0")/.." || exit 2
 for s in "$@"; do
   for p in C01 C02 C03 C04 C17 C18; do
-    echo "== $p tier=$TIER VERIF_SEED=$s"
-    VERIF_SEED=$s ./check $p $TIER | grep -E "VERIF_SEED|VIOLATION|HARNESS|signature|evaluations" | cut -c1-220
-    echo "exit=$?"
+    VERIF_SEED=$s ./check $p $TIER > /tmp/sweep.$$.log 2>&1
+    rc=$?
+    echo "== $p tier=$TIER VERIF_SEED=$s exit=$rc"
+    grep -E "VIOLATION|HARNESS|signature|evaluations" /tmp/sweep.$$.log | cut -c1-220
   done
 done
+rm -f /tmp/sweep.$$.log
